@@ -27,6 +27,7 @@ FIXED = [
  ("C17", "fix: adding rows after a dual solve branched on an uninitialised size field", "C17|memcheck:Conditional jump or move depends on uninitialised value(s)|mpq_ILLlib_addrows>mpq_QSadd_rows>mpq_QSadd_row", "QSadd_row(s) after QSopt_dual (+ column adds) compared the never-initialised B->rownorms_size: heap overflow behind the stored row norms for large garbage (reported by a mutation sub-agent; hist corpus of C17 widened)"),
  ("C11", "fix: MPS files with SOS sets crashed the rational reader", "C11|crash|mps-sos", "any MPS file with an SOS set ('MARKER' 'SOSORG' lines): the SOS weight array was grown with realloc(sizeof(double)) and never initialised: mpq_set on garbage, wrong free (found while checking a leak reported by a mutation sub-agent; SOS sections added to the MPS generators and the fuzz dictionary)"),
  ("C18", "fix: the SOS type array of a problem read from MPS was never released", "C18|leak|buildSosInfo", "lp->sos_type allocated by buildSosInfo was never freed (reported by a mutation sub-agent)"),
+ ("C18", "fix: partial-pricing group tables were rebuilt without releasing the old ones", "C18|leak|mpq_ILLprice_build_mpartial_info>mpq_ILLprice_build_pricing_info>mpq_ILLsimplex", "QSopt_dual under QS_PRICE_DMULTPARTIAL, then a bound/cost edit and a warm QSopt_dual: the group tables of the first solve leaked (found by C18 once its history corpus included the `warm` stream)"),
  ("C05", "fix: loading a basis discards the stored solution of the previous basis", "C05|stale|delete_row", "solve, QSload_basis* with a tight row marked basic, QSdelete_row of that row: the old optimum was still served by the accessors and by QSopt_primal (reported by a mutation sub-agent; C05 stream `basisload` added)"),
  ("C05", "fix: bound changes keep the retained working basis consistent", "C05|opt_dual|resolve-cert:accessor-cert:bound", "a nonbasic free column given a finite bound stayed free-at-zero in the retained working basis: warm re-solve OPTIMAL outside the bounds / UNBOUNDED (reported by a mutation sub-agent; C05 stream `warm` added)"),
  ("C05", "fix: a basis stored while a row was ranged could not be loaded after QSchange_sense", "C05|delete_col|valid-edit-rejected", "rstat at-upper left from a former range row made ILLbasis_load fail, so later edits/solves returned errors"),
